@@ -289,3 +289,86 @@ Proof.
   - intros m. repeat constructor.
   - intros; eapply I_ufs_step; eauto.
 Qed.
+
+(* ------------------------------------------------------------------ an idle registered runner has a pending reason to expire *)
+
+(* program points that will queue an expired event for r, or are processing one *)
+Fixpoint expf (r : nat) (p : pc) : nat :=
+  match p with
+  | PExpSend _ r' | CFSend r' | LWErr _ r' | LWExp r' | TMLk r' | TMSend r' | RTSleep r' _ | RTSend r'
+  | AXSend r' | CE1 r' | CE2 r' | CEV r' => eqn r' r
+  | TEntry p' => expf r p'
+  | _ => 0
+  end.
+
+Definition refn (s : state) (r : nat) : nat := if N.eqb (rref s r) 0 then 0 else 1.
+
+Definition reason (s : state) (r : nat) : nat :=
+  refn s r + getd armedn (runners s) r + occ r (expq s) + cnt (expf r) (thr s).
+
+Definition I_id (s : state) : Prop :=
+  forall r, rclosed s r = false -> cnt (freshr r) (thr s) = 0 -> 1 <= reason s r.
+
+Lemma wake_expf r t' p : expf r (wake t' p) = expf r p.
+Proof. destruct p; simpl; auto; destruct (Z.leb u t'); reflexivity. Qed.
+
+Lemma fire_expf_armed r : forall rs i t',
+  i <= r -> getd armedn rs (r - i) <= getd armedn (fst (fire rs i t')) (r - i) + cnt (expf r) (snd (fire rs i t')).
+Proof.
+  induction rs as [|x tl IH]; intros i t' Hi; simpl; [lia|].
+  specialize (IH (S i) t'). destruct (fire tl (S i) t') as [tl' ps] eqn:E. simpl in IH.
+  destruct (Nat.eq_dec i r) as [->|N].
+  - rewrite Nat.sub_diag. unfold getd, armedn. simpl.
+    destruct (r_tm x) as [|[dl|]|] eqn:T; simpl; try rewrite T; try lia.
+    destruct (Z.leb dl t'); simpl; try rewrite T; lia.
+  - assert (Hs : r - i = S (r - S i)) by lia. rewrite Hs. unfold getd in *. simpl.
+    specialize (IH ltac:(lia)).
+    destruct (r_tm x) as [|[dl|]|]; simpl; try lia. destruct (Z.leb dl t'); simpl; lia.
+Qed.
+
+Section StepID.
+Variables (c : config) (s s' : state) (l : label) (e : list event).
+Hypothesis Hf : fixed c.
+Hypothesis IO : I_one s.
+Hypothesis I2 : L2 s.
+Hypothesis I3 : L3 s.
+Hypothesis I : I_id s.
+Hypothesis H : step c s l = Some (s', e).
+
+Ltac id_sums r Ep :=
+  repeat (erewrite (cnt_upd_eq (expf r)) by (first [exact Ep | apply nth_error_snoc_old; exact Ep]));
+  repeat (erewrite (cnt_upd_eq (freshr r)) by (first [exact Ep | apply nth_error_snoc_old; exact Ep]));
+  rewrite ?cnt_snoc; unfold occ; rewrite ?cnt_snoc;
+  repeat (erewrite getd_upd by eassumption); rewrite ?getd_snoc;
+  repeat (erewrite getf_upd by eassumption); rewrite ?getf_snoc.
+
+Lemma I_id_step : I_id s'.
+Proof.
+  unfold I_id, reason, refn, rref, rclosed in *. fix_cfg c Hf. intros r Hc Hfr.
+  destruct l as [sp|q0|m|d|t alt].
+  - step_cases H; simpl in *; apply I; auto.
+  - step_cases H; simpl in *; apply I; auto.
+  - step_cases H; simpl in *; rewrite !cnt_snoc in *.
+    assert (Z : freshr r (TEntry (AXLm m)) = 0) by reflexivity. rewrite Z in Hfr. simpl. specialize (I r Hc ltac:(lia)). lia.
+  - step_cases H. rewrite tick_runners, tick_thr, !cnt_app in *.
+    rewrite wake_cnt in * by (intros; first [apply wake_expf | apply wake_freshr]).
+    rewrite (fire_pcs_zero (freshr r)) in Hfr by reflexivity. rewrite Nat.add_0_r in Hfr.
+    rewrite (fire_getf r_closed true) in Hc by reflexivity. rewrite (fire_getf r_ref 0%N) by reflexivity.
+    specialize (I r Hc Hfr).
+    pose proof (fire_expf_armed r (runners s) 0 (now s + d)%Z ltac:(lia)) as Fa. rewrite Nat.sub_0_r in Fa.
+    unfold tick. destruct (fire (runners s) 0 (now s + d)%Z). simpl in *. lia.
+  - unfold step in H. destruct (nth_error (thr s) t) as [p|] eqn:Ep; try discriminate.
+    pose proof (cnt_ge (expf r) _ _ _ Ep) as GeE. pose proof (cnt_ge (freshr r) _ _ _ Ep) as GeF.
+    destruct p; step_cases H; simpl in *; unfold getq, getr in *;
+    try (revert Hc Hfr; id_sums r Ep; unfold freshr in *; simpl in *; unfold eqn in *; intros Hc Hfr;
+         eqb_cases; simpl in *; use_nth; simpl in *; try discriminate; try lia;
+         (assert (Hc0 : getf r_closed true (runners s) r = false) by (unfold getf; use_nth; auto; try congruence));
+         (assert (Hf0 : cnt (freshr r) (thr s) = 0) by (unfold freshr, eqn in *; lia));
+         specialize (I r Hc0 Hf0); unfold getf, getd, armedn, occ in *; use_nth; simpl in *;
+         repeat match goal with E : expq s = _ |- _ => rewrite E in I; simpl in I end; unfold eqn in *; eqb_cases;
+         repeat match goal with |- context [N.eqb ?a ?b] => destruct (N.eqb a b) eqn:? | H : context [N.eqb ?a ?b] |- _ => destruct (N.eqb a b) eqn:? end;
+         repeat match goal with |- context [match r_tm ?x with _ => _ end] => destruct (r_tm x) eqn:? | H : context [match r_tm ?x with _ => _ end] |- _ => destruct (r_tm x) eqn:? end;
+         simpl in *; try lia; fail).
+Qed.
+
+End StepID.
